@@ -1,10 +1,11 @@
 #!/bin/bash
 # tools/mutest.sh <Cxx> <patch>...   apply each patch to /repo, run the quick check, undo.
+# MUTEST_REPLAY=1 keeps counterexample extraction and native replay (slow); default is detection only.
 pid=$1; shift
 for p in "$@"; do p=$(realpath "$p")
   git -C /repo apply "$p" || { echo "APPLY-FAILED $p"; continue; }
   cp /verif/evidence/$pid.json /tmp/evidence_$pid.keep 2>/dev/null
-  out=$(/verif/check $pid quick 2>&1); rc=$?
+  if [ -n "$MUTEST_REPLAY" ]; then out=$(/verif/check $pid quick 2>&1); rc=$?; else out=$(VERIF_NO_REPLAY=1 /verif/check $pid quick 2>&1); rc=$?; fi
   git -C /repo checkout -- .
   cp /tmp/evidence_$pid.keep /verif/evidence/$pid.json 2>/dev/null  # evidence files describe the unchanged tree only
   echo "== $(basename $p): exit=$rc"; echo "$out" | grep -E '^(VIOLATION|UNDECIDED|KNOWN)' | head -5
